@@ -316,7 +316,22 @@ def monitor (cfgF : Fields) (ops : List (Nat × Fields)) : String :=
                     | none => none)
                  | _, _ => none)
               | _ => none
-            match postBad with
+            -- nothing but the post-restart write happened between the two restarts: every other key reads the same
+            -- after the second restart, or is gone (block reclaim) - in particular a deleted key stays deleted
+            let postKey : Option Nat := match (getD f "post" "").splitOn ":" with
+              | [pk, _] => pk.toNat?
+              | _ => none
+            let driftBad : Option String :=
+              if (get? f "reads2").isNone then none else
+              let r2 := parseReads (getD f "reads2" "-")
+              reads.findSome? fun (k, v1) =>
+                if some k = postKey then none else
+                match (r2.find? (·.1 = k)).map (·.2) with
+                | some v2 =>
+                  if v2 = v1 || v2 = "miss" then none
+                  else some (fail "second_restart_changes_what_a_key_reads" s!"key {k} read {v1} after the restart from crash point {at_} and reads {v2} after one more restart although it was not written in between")
+                | none => none
+            match postBad <|> driftBad with
             | some e => e
             | none => go rest (n + 1)
   go ops 0
